@@ -1,7 +1,7 @@
 (* Case types and boolean functions evaluated by the C09 correspondence harness. *)
 From Coq Require Import NArith List Bool String. Import ListNotations.
 From TP Require Export Base.PyVal Base.PyEq Schema.PyLiteral Schema.CodeGen Gen.EmitSites
-     Schema.ModuleGen Gen.ModuleLayout.
+     Schema.ModuleGen Gen.ModuleLayout Schema.BackRequired.
 Local Open Scope N_scope.
 
 Definition opt_lex_eqb (a b : option (pystr * list N)) : bool :=
@@ -163,3 +163,31 @@ Definition module_sites_predicted_ok (c : modcase) : bool :=
   | Some toks => all_sites_ok py_keywords emit_sites toks
   | None => false
   end.
+
+(* ---- the required list across the round trip: obs = the "required" structure_to_schema returned for the
+   class built from the generated source *)
+Definition reqcase := (jclass * list pystr)%type.
+
+Definition required_mismatch (c : reqcase) : bool :=
+  let '(cls, obs) := c in
+  match roundtrip_required cls with
+  | Some r => negb (same_members r obs)
+  | None => true
+  end.
+
+Fixpoint nodupb (l : list pystr) : bool :=
+  match l with [] => true | x :: t => negb (str_in x t) && nodupb t end.
+
+(* the hypotheses of C09_required_roundtrip *)
+Definition required_hypotheses (c : reqcase) : bool :=
+  let '(cls, obs) := c in
+  match c_required cls with
+  | Some req => nodupb req && forallb (fun x => str_in x req) (defaulted (c_props cls))
+  | None => false
+  end.
+
+(* ... and its conclusion, on what the implementation returned *)
+Definition required_theorem_violated (c : reqcase) : bool :=
+  let '(cls, obs) := c in
+  required_hypotheses c &&
+  match c_required cls with Some req => negb (same_members obs req) | None => false end.
